@@ -84,3 +84,36 @@ End Text.
 Print Assumptions C01_text_accept.
 Print Assumptions C01_text_eval.
 Print Assumptions C01_layout_irrelevant.
+
+(** ** the crate does not evaluate an unfolded diagram: [evaluate_reporter_impl] calls [kind()] on an id - one arena
+    node, children with the parent's complement bit pushed down -, takes the first edge whose range contains the
+    environment's value (or the high / low child) and recurses on that child id ([Interner/EvalModel.v], [eval_i]).
+    On every id of every reachable store that is the evaluation of the diagram the id denotes; the crate's
+    fall-through `false` after the edge loop is dead code; interning more nodes later changes no answer. *)
+From PV Require Import Interner.Store Interner.StoreProofs Interner.Intern Interner.AndModel Interner.InternI Interner.InternIProofs Interner.EvalModel Interner.EvalProofs.
+
+Theorem C01_evaluate_on_ids : forall (a : marena) (e : env) (extras : list str) (x : nid),
+  Inv a -> valid (length a) x -> m_eval_i (eval_fuel a) a e extras x = Some (m_eval e extras (unfold a x)).
+Proof. exact m_eval_i_default. Qed.
+
+Theorem C01_evaluate_edge_loop_total : forall (v : val) (d0 : nid) (ds : list (cut val * nid)),
+  first_edge v (edges_of d0 ds) <> None.
+Proof. exact first_edge_total. Qed.
+
+Theorem C01_evaluate_after_more_interning : forall (a b : marena) (e : env) (extras : list str) (fuel : nat) (x : nid),
+  Inv a -> valid (length a) x -> m_eval_i fuel (a ++ b) e extras x = m_eval_i fuel a e extras x.
+Proof. exact m_eval_i_stable. Qed.
+
+Theorem C01_evaluate_on_reachable_stores : forall (pv pfv : N) (h w : list mop) (e : env) (extras : list str) (pvk : N) (pvs : list version) (i : nat),
+  let s := mrun_i pv pfv (fresh_i (mrun_i pv pfv init_i h)) w in
+  let a := si_arena s in
+  let x := regi s i in
+  m_eval_i (eval_fuel a) a e extras x = Some (m_eval e extras (reg (forget s) i)) /\
+  m_eval_extras_i (eval_fuel a) a extras x = Some (m_eval_extras extras (reg (forget s) i)) /\
+  m_eval_extras_pv_i (eval_fuel a) a pvk pvs extras x = Some (m_eval_extras_pv pvk pvs extras (reg (forget s) i)).
+Proof. exact eval_i_reachable. Qed.
+
+Print Assumptions C01_evaluate_on_ids.
+Print Assumptions C01_evaluate_edge_loop_total.
+Print Assumptions C01_evaluate_after_more_interning.
+Print Assumptions C01_evaluate_on_reachable_stores.
